@@ -26,8 +26,8 @@ Definition f32_one : f32 := f32_of_Z 1.
 Definition ts_ok_f32 (ts : f32) : bool :=
   negb (BinarySingleNaN.Bleb ts f32_zero || BinarySingleNaN.Bltb f32_one ts).
 
-Definition n_test_f32 (n : nat) (ts : f32) : nat :=
-  Z.to_nat (f32_as_usize (f32_mul (f32_of_Z (Z.of_nat n)) ts)).
+Definition n_test_f32_Z (n : Z) (ts : f32) : Z := f32_as_usize (f32_mul (f32_of_Z n) ts).
+Definition n_test_f32 (n : nat) (ts : f32) : nat := Z.to_nat (n_test_f32_Z (Z.of_nat n) ts).
 
 Definition train_test_split_f32 {R T} (x : list R) (y : list T) (ts_bits : Z) (indices : list nat) :=
   let ts := f32_of_bits ts_bits in
